@@ -25,6 +25,8 @@ AutoNamesDef == {"auto1", "auto2"}
 DefValsDef == {-1, 0, 5, 10, 15}
 DefValsSmall == {-1, 5}
 StepPoolDef == {"s", "zz"}
+\* random behaviours also name a step that starts with a capital letter
+StepPoolSim == {"s", "zz", "Zz"}
 MaxHDef == atoi(EnvOr("VERIF_MAXH", "4"))
 ASSUME WellFormed(LngDef)
 =============================================================================
